@@ -482,6 +482,29 @@ def run(repo, rep):
         n += 1
     rep.floor('C18.d', n - n0, 4)
 
+    # ---------------------------------------------------------------- C18.g cpprint writes the text pformat returns (colour aside)
+    # the two renderers behind the entry points agree on every text fragment, line break and trimmed line end (home: C16.f)
+    from .common import import_instances
+    rep.floor('C18.g', import_instances(repo, rep, 'C16', lambda i: i.construct.startswith('plain-text-agreement'), 'C18.g',
+                                        'cpprint and pformat / pprint would print different text for the same object'), 1)
+
+    # ---------------------------------------------------------------- C18.f the entry points keep nothing between calls
+    # besides the default table (written by set_default_config alone, above) no function of prettyprinter/__init__.py writes module-level
+    # state: an entry point that remembers something - a re-entrancy guard, a cache of rendered text, a "last stream" - answers
+    # differently from the others once the remembered state and reality part ways (an exception between add and discard, ...)
+    from engine import effects as _eff
+    nf = 0
+    for s_ in _eff.sites(repo, _eff.shared_objects(repo)):
+        if s_.kind != 'write' or not ((s_.fn is not None and s_.fn.module is m) or s_.obj.module is m):
+            continue
+        if s_.obj.name == DC:
+            continue
+        nf += 1
+        rep.fail('C18.f', '%s:module-state:%s:%s' % (s_.fn.qualname if s_.fn else '<module>', s_.obj.name, s_.detail), s_.where,
+                 '%s %s the module-level %s %s: what this entry point returns depends on earlier calls (and on how they ended), while the other '
+                 'entry points print the same object afresh' % (s_.fn.key if s_.fn else 'module code', s_.detail, s_.obj.kind, s_.obj.name))
+    rep.ok('C18.f', 'entry-points-stateless', m.relpath, 'no module-level state besides the default table is written (%d other writes)' % nf, nontrivial=True)
+
     # ---------------------------------------------------------------- C18.e pretty_repr
     n0 = n
     pr_ = m.funcs.get('pretty_repr')
